@@ -481,7 +481,7 @@ func runC14(p *core.Prog, r *core.Report) {
 		isStoreLayer := p.FuncObj(pkgExec, "LayerModules.IsStoreLayer")
 		var closeEdges []core.Edge
 		nStore, nLast := 0, 0
-		core.Instrs(closeFn, func(in ssa.Instruction) {
+		core.InstrsDeep(closeFn, func(in ssa.Instruction) {
 			ifi, ok := in.(*ssa.If)
 			if !ok {
 				return
